@@ -14,6 +14,11 @@ type GroupEv struct {
 	Fr   int      `json:"fr"`
 	Subj Paths    `json:"subj"`
 	Clip Paths    `json:"clip"`
+	// Api "wrappers": every solution from a fresh package-level call; "engine": one Clipper64 object loaded
+	// once and executed four times in the order Order (a permutation of the clip types 1..4), the natural
+	// way to obtain the four solutions of one input
+	Api   string `json:"api"`
+	Order []int  `json:"order"`
 
 	Out      string `json:"out"`
 	Ok       bool   `json:"ok"`
@@ -37,12 +42,44 @@ func execGroup(r *rand.Rand, e *GroupEv) {
 	s, c := toPaths64(e.Subj), toPaths64(e.Clip)
 	fr := clipper.FillRule(e.Fr)
 	e.Ok = true
+	if e.Order == nil {
+		e.Order = []int{}
+	}
 	e.Out = safeCall(func() {
-		e.I = fromPaths64(clipper.BooleanOpPaths64(clipper.Intersection, s, c, fr))
-		e.U = fromPaths64(clipper.BooleanOpPaths64(clipper.Union, s, c, fr))
-		e.D = fromPaths64(clipper.BooleanOpPaths64(clipper.Difference, s, c, fr))
-		e.X = fromPaths64(clipper.BooleanOpPaths64(clipper.Xor, s, c, fr))
-		e.D2 = fromPaths64(clipper.BooleanOpPaths64(clipper.Difference, c, s, fr))
+		if e.Api == "engine" {
+			g := clipper.NewClipper64()
+			g.AddPaths(s, clipper.Subject, false)
+			g.AddPaths(c, clipper.Clip, false)
+			for _, ct := range e.Order {
+				var sol clipper.Paths64
+				if !g.Execute(clipper.ClipType(ct), fr, &sol) {
+					e.Ok = false
+				}
+				switch ct {
+				case 1:
+					e.I = fromPaths64(sol)
+				case 2:
+					e.U = fromPaths64(sol)
+				case 3:
+					e.D = fromPaths64(sol)
+				case 4:
+					e.X = fromPaths64(sol)
+				}
+			}
+			g2 := clipper.NewClipper64()
+			g2.AddPaths(c, clipper.Subject, false)
+			g2.AddPaths(s, clipper.Clip, false)
+			var junk, sol clipper.Paths64
+			g2.Execute(clipper.Xor, fr, &junk)
+			g2.Execute(clipper.Difference, fr, &sol)
+			e.D2 = fromPaths64(sol)
+		} else {
+			e.I = fromPaths64(clipper.BooleanOpPaths64(clipper.Intersection, s, c, fr))
+			e.U = fromPaths64(clipper.BooleanOpPaths64(clipper.Union, s, c, fr))
+			e.D = fromPaths64(clipper.BooleanOpPaths64(clipper.Difference, s, c, fr))
+			e.X = fromPaths64(clipper.BooleanOpPaths64(clipper.Xor, s, c, fr))
+			e.D2 = fromPaths64(clipper.BooleanOpPaths64(clipper.Difference, c, s, fr))
+		}
 		e.US = fromPaths64(clipper.UnionPaths64(s, fr))
 		e.UC = fromPaths64(clipper.UnionPaths64(c, fr))
 		e.US2 = fromPaths64(clipper.BooleanOpPaths64(clipper.Union, s, nil, fr))
@@ -127,7 +164,12 @@ func driveGroup(r *rand.Rand, w *writer, n int, large bool) {
 		} else {
 			subj, clip, _ = genBoolInput(r)
 		}
-		e := &GroupEv{Ev: "BoolGroup", Chk: chkFor("C19"), Fr: r.Intn(4), Subj: subj, Clip: nz(clip)}
+		e := &GroupEv{Ev: "BoolGroup", Chk: chkFor("C19"), Fr: r.Intn(4), Subj: subj, Clip: nz(clip), Api: "wrappers", Order: []int{}}
+		if r.Intn(3) == 0 {
+			e.Api = "engine"
+			e.Order = []int{1, 2, 3, 4}
+			r.Shuffle(4, func(i, j int) { e.Order[i], e.Order[j] = e.Order[j], e.Order[i] })
+		}
 		execGroup(r, e)
 		w.emit(e)
 	}
